@@ -8,6 +8,7 @@ Identifier half (implementation side): graphs with deprecated classes at random 
 node by node, the identifier of the same graph written with the replacement classes.
 """
 import copy
+import hashlib
 import json
 import os
 from concurrent.futures import ThreadPoolExecutor
@@ -427,6 +428,93 @@ def run_workspaces(c, cases):
     return phase("B", "1")
 
 
+class Collector:
+    """stands for a Check while shrinking: records the keys the oracle reports"""
+
+    def __init__(self):
+        self.found = {}
+
+    def violation(self, key, what, data):
+        self.found.setdefault(key, (what, data))
+
+
+def job_refs(m):
+    if m[0] == "link":
+        return [r[x] for r in (m[1], m[2]) for x in ("old", "new") if x in r]
+    if m[0] == "mkdir":
+        return [m[1][x] for x in ("old", "new") if x in m[1]]
+    if m[0] == "copy":
+        return [m[1][x] for x in ("old", "new") if x in m[1]] + [m[2]]
+    return [m[1]]
+
+
+def reindex(m, drop):
+    m = copy.deepcopy(m)
+
+    def fix(i):
+        return i - 1 if i > drop else i
+    for r in m[1:3]:
+        if isinstance(r, dict):
+            for x in ("old", "new"):
+                if x in r:
+                    r[x] = fix(r[x])
+    if m[0] == "copy":
+        m[2] = fix(m[2])
+    if m[0] in ("corrupt", "rmparams", "mvnew"):
+        m[1] = fix(m[1])
+    return m
+
+
+def reductions(case):
+    base = {k: copy.deepcopy(case[k]) for k in ("jobs", "manual", "ops")}
+    if len(base["jobs"]) > 1:
+        for i in range(len(base["jobs"])):
+            c2 = copy.deepcopy(base)
+            del c2["jobs"][i]
+            c2["manual"] = [reindex(m, i) for m in c2["manual"] if i not in job_refs(m)]
+            yield c2
+    for i in range(len(base["manual"])):
+        c2 = copy.deepcopy(base)
+        del c2["manual"][i]
+        yield c2
+    if len(base["ops"]) > 1:
+        for i in range(len(base["ops"])):
+            c2 = copy.deepcopy(base)
+            del c2["ops"][i]
+            yield c2
+    for i, j in enumerate(base["jobs"]):
+        if j["mode"] == "run":
+            c2 = copy.deepcopy(base)
+            c2["jobs"][i]["mode"] = "gen"
+            yield c2
+
+
+def shrink(c, case, key, rounds=6):
+    """greedy: drop jobs / manual repairs / calls while the oracle still reports the same key on the real code"""
+    cur = {k: case[k] for k in ("jobs", "manual", "ops")}
+    best = None
+    tag = hashlib.sha1(key.encode()).hexdigest()[:6]
+    for rnd in range(rounds):
+        cands = [dict(cd, name=f"s{tag}r{rnd}c{i}", real_resubmit=True)
+                 for i, cd in enumerate(reductions(cur))]
+        if not cands:
+            break
+        answers = run_workspaces(c, cands)
+        c.extra["shrink_runs"] = c.extra.get("shrink_runs", 0) + len(cands)
+        nxt = None
+        for cd, ans in zip(cands, answers):
+            col = Collector()
+            oracle(col, cd, ans)
+            if key in col.found:
+                nxt = (cd, col.found[key])
+                break
+        if nxt is None:
+            break
+        cur = {k: nxt[0][k] for k in ("jobs", "manual", "ops")}
+        best = nxt[1]
+    return cur, best
+
+
 def shape(case, ans):
     exp, _ = expected_recomp(case, ans)
     sig = []
@@ -469,6 +557,7 @@ def run(c: Check):
     # ---- workspace half
     answers = run_workspaces(c, cases) if cases else []
     items = []
+    col = Collector()
     for case, ans in zip(cases, answers):
         c.evaluations += 1
         exp, _ = expected_recomp(case, ans)
@@ -492,11 +581,16 @@ def run(c: Check):
                 c.count("resubmit-real:" + r["real"]["state"] + (":reran" if r["real"]["ran_after"] != r["real"]["ran_before"] else ":not-rerun"))
         if stale and any(op["fix"] for op in ans["ops"]):
             c.nontrivial.add("ws:" + shape(case, ans))
-        oracle(c, case, ans)
+        oracle(col, case, ans)
         if representable(ans):
             items.append((case, ans))
         else:
             c.count("not-representable")
+    for key, (what, data) in col.found.items():
+        small, best = shrink(c, data["case"], key)
+        if best is not None:
+            what, data = best
+        c.violation(key, what, data)
     c.samples = [dict(jobs=x[0]["jobs"], manual=x[0]["manual"], ops=x[0]["ops"], before=x[1]["before"],
                       after_last=x[1]["ops"][-1]["after"], resubmit=x[1]["resubmit"]) for x in items[:2]]
     header = ("From Coq Require Import ZArith List Bool.\nFrom XV Require Import model.Deprecate corr.DeprecateCorr.\n"
